@@ -44,7 +44,9 @@ def sum_b64decode(it, st, args, node):
 def sum_b64encode(it, st, args, node):
     """jwt_base64uri_encode(&dst, plain, len): -1 with *dst untouched, or n >= 0 with *dst = new buffer"""
     outs = []
-    s1 = st.clone() if it.rule.alloc_may_fail else st
+    single = getattr(it.rule, 'single_fault', False)
+    may_fail = it.rule.alloc_may_fail and not (single and st.ts.get('faulted'))
+    s1 = st.clone() if may_fail else st
     tag = 'b64enc@%s' % site(node)
     o = s1.newobj(tag)
     if isinstance(args[0], Ref):
@@ -55,9 +57,11 @@ def sum_b64encode(it, st, args, node):
     own_alloc(it, s1, 'jwt', Ref(o), node, 'jwt_base64uri_encode')
     s1.trace.append(('api', 'jwt_base64uri_encode', t, list(args), node_loc(node)))
     outs.append((s1, t))
-    if it.rule.alloc_may_fail:
+    if may_fail:
         st.trace.append(('api', 'jwt_base64uri_encode', Int(-1), list(args), node_loc(node)))
         st.trace.append(('allocfail', 'jwt_base64uri_encode', node_loc(node)))
+        if single:
+            st.ts['faulted'] = True
         outs.append((st, Int(-1)))
     return outs
 
